@@ -239,7 +239,7 @@ func c14dRun(c c14dCase) (verdict, inconcl string, cleared bool) {
 	var idleSince time.Time
 	for {
 		if waitIdleFor(30, 3) {
-			diff := c06Compare(s, c06Expected(chain))
+			diff := c06Compare(s, c06Expected(chain, false))
 			if diff == "" {
 				return "", "", true
 			}
